@@ -1,13 +1,15 @@
 // C05 harness: WHERE filtering equals the reference meaning of the expression.
 //
 // Streams:
-//   where  grammar-generated expressions (depth <= 6) x generated events through the real
-//          lql.ParseExpr + lql.BuildWhereExpFuncByExpression; the closure is applied to every event
-//          under recover. Recorded: parse error | build error | per event true/false/panic.
-//   edge   the same with constructs the server is expected to reject, and byte/token mutations
-//   lex    token-level comparison: the raw token stream of the lexer and the stream the parser sees
-//   match  path.Match samples (the model of LIKE used by the correspondence check)
-//   query  end-to-end: SELECT FROM {partition} WHERE e on an in-process server vs the stored events
+//
+//	where  grammar-generated expressions (depth <= 6) x generated events through the real
+//	       lql.ParseExpr + lql.BuildWhereExpFuncByExpression; the closure is applied to every event
+//	       under recover. Recorded: parse error | build error | per event true/false/panic.
+//	edge   the same with constructs the server is expected to reject, and byte/token mutations
+//	lex    token-level comparison: the raw token stream of the lexer and the stream the parser sees
+//	match  path.Match samples (the model of LIKE used by the correspondence check)
+//	query  end-to-end: SELECT FROM {partition} WHERE e on an in-process server vs the stored events
+//
 // Oracle O: an independent evaluator of the documented meaning over the parsed AST (oracle.go).
 package main
 
